@@ -1617,6 +1617,29 @@ func (e *Engine) Discharge(obs []*Obligation, opts DischargeOpts) {
 				for _, in := range ob.Inputs {
 					asserts = append(asserts, e.C.Eq(e.C.Var("gvcin$"+in.Name, in.T.Sort), in.T))
 				}
+				// every stream byte the query talks about (rdin(r, idx)): value and index, so
+				// that a replay driver can lay the bytes out relative to the smallest index
+				{
+					seenR := map[*smt.Term]bool{}
+					n := 0
+					var walk func(t *smt.Term)
+					walk = func(t *smt.Term) {
+						if seenR[t] || n >= 96 {
+							return
+						}
+						seenR[t] = true
+						if t.Op == smt.OApp && t.Name == "spec$rdin" && len(t.Args) == 2 && !t.HasBound() {
+							asserts = append(asserts, e.C.Eq(e.C.Var(fmt.Sprintf("gvcrd$%d", n), t.Sort), t), e.C.Eq(e.C.Var(fmt.Sprintf("gvcrdidx$%d", n), smt.BV64), t.Args[1]))
+							n++
+						}
+						for _, a := range t.Args {
+							walk(a)
+						}
+					}
+					for _, a := range asserts[:len(asserts):len(asserts)] {
+						walk(a)
+					}
+				}
 				vals = smt.FreeVars(asserts...)
 				var keep []*smt.Term
 				for _, v := range vals {
@@ -1625,13 +1648,13 @@ func (e *Engine) Discharge(obs []*Obligation, opts DischargeOpts) {
 					}
 				}
 				sort.SliceStable(keep, func(i, j int) bool {
-					pi := strings.HasPrefix(keep[i].Name, "in$") || strings.HasPrefix(keep[i].Name, "gvcin$")
-					pj := strings.HasPrefix(keep[j].Name, "in$") || strings.HasPrefix(keep[j].Name, "gvcin$")
+					pi := strings.HasPrefix(keep[i].Name, "in$") || strings.HasPrefix(keep[i].Name, "gvcin$") || strings.HasPrefix(keep[i].Name, "gvcrd")
+					pj := strings.HasPrefix(keep[j].Name, "in$") || strings.HasPrefix(keep[j].Name, "gvcin$") || strings.HasPrefix(keep[j].Name, "gvcrd")
 					return pi && !pj
 				})
 				vals = keep
-				if len(vals) > 200 {
-					vals = vals[:200]
+				if len(vals) > 400 {
+					vals = vals[:400]
 				}
 			}
 			sc := e.C.Script("ALL", asserts, vals, opts.Models)
